@@ -6,8 +6,10 @@
 package main
 
 import (
+	"crypto/sha256"
 	"encoding/hex"
 	"encoding/json"
+	"errors"
 	"fmt"
 	"os"
 	"strings"
@@ -17,6 +19,7 @@ import (
 	"github.com/scionproto/scion/pkg/addr"
 	"github.com/scionproto/scion/pkg/log"
 	"github.com/scionproto/scion/pkg/slayers"
+	"github.com/scionproto/scion/pkg/stun"
 	"github.com/scionproto/scion/router/underlayproviders/udpip"
 
 	"verifharness/vlib"
@@ -33,6 +36,9 @@ type engine struct {
 	mismatchLog []string
 	slowSeen    map[string]int
 	scmpEmitted int
+	placeFront  int
+	placeEnd    int
+	atLimit     int
 	consistPre  int
 }
 
@@ -81,10 +87,12 @@ func (en *engine) feed(dv *dpVar, raw []byte, link uint16, headroom int, sc *sce
 		e.Case("", "~"+tag+"stun-drop", true)
 		return o
 	case "stun-reply":
-		e.Case(fmt.Sprintf("%x", raw), tag+"stun-reply", false)
+		hs := sha256.Sum256(raw)
+		e.Case(fmt.Sprintf("stun|%x", hs[:12]), tag+"stun-reply", false)
 		return o
 	}
-	fp := fmt.Sprintf("%s|%d|%x", dv.name, link, raw)
+	h := sha256.Sum256(raw)
+	fp := fmt.Sprintf("%s|%d|%x", dv.name, link, h[:12])
 	btag := tag + res.Disp
 	switch res.Disp {
 	case "forward":
@@ -123,6 +131,16 @@ func (en *engine) feed(dv *dpVar, raw []byte, link uint16, headroom int, sc *sce
 		} else {
 			btag += "/emit"
 			en.scmpEmitted++
+			if res.SpType >= 0 {
+				if res.OutOff < res.Headroom {
+					en.placeFront++
+				} else {
+					en.placeEnd++
+				}
+				if len(res.Out) == 1232 {
+					en.atLimit++
+				}
+			}
 			if e.Prop == "C08" {
 				if why := inconsistent(res.Out); why != "" {
 					m := rep()
@@ -257,7 +275,7 @@ func main() {
 	en.tables()
 
 	// (1) valid packets
-	nValid := e.N(2500, 40000)
+	nValid := e.N(2500, 20000)
 	type kept struct {
 		raw  []byte
 		lay  *layout
@@ -324,7 +342,7 @@ func main() {
 	}
 
 	// (2) one flaw each
-	nFlaw := e.N(6000, 120000)
+	nFlaw := e.N(6000, 60000)
 	for i := 0; i < nFlaw; i++ {
 		f := flawTable[i%len(flawTable)]
 		sc := en.g.flawed(f, r.Chance(20))
@@ -370,7 +388,7 @@ func main() {
 	}
 
 	// (3) single-field corruptions, (5) length lies
-	nMut := e.N(60000, 1200000)
+	nMut := e.N(60000, 600000)
 	for i := 0; i < nMut; i++ {
 		k := corpus[r.Intn(len(corpus))]
 		var raw []byte
@@ -391,7 +409,7 @@ func main() {
 	}
 
 	// (4) every truncation offset of a sample of packets (all offsets up to 400, then strided)
-	nTrunc := e.N(60, 1500)
+	nTrunc := e.N(60, 600)
 	for i := 0; i < nTrunc; i++ {
 		k := corpus[r.Intn(len(corpus))]
 		links := en.otherLinks(k.link)
@@ -405,13 +423,36 @@ func main() {
 	}
 
 	// (6) random bytes incl. STUN
-	nRand := e.N(40000, 800000)
+	nRand := e.N(40000, 400000)
 	links := []uint16{0, 0, 0, 1, 2, 5, 11, 12}
 	for i := 0; i < nRand; i++ {
 		raw, what := randomBytes(r)
 		link := links[r.Intn(len(links))]
 		dv := en.pickDP()
 		en.feed(dv, raw, link, 512, nil, "random", what, false, false)
+		if strings.HasPrefix(what, "stun") || (i%16 == 0 && len(raw) <= 200) {
+			ans := ""
+			_, err := stun.ParseBindingRequest(raw)
+			switch {
+			case err == nil || errors.Is(err, stun.ErrWrongFingerprint):
+				ans = fmt.Sprintf("crc %d", len(raw)-8)
+			case errors.Is(err, stun.ErrNotSTUN):
+				ans = "notstun"
+			case errors.Is(err, stun.ErrNotBindingRequest):
+				ans = "notbinding"
+			case errors.Is(err, stun.ErrMalformedAttrs):
+				ans = "malformed"
+			case errors.Is(err, stun.ErrNoFingerprint):
+				ans = "nofp"
+			default:
+				ans = "other-error"
+			}
+			tg := "stun/" + strings.Fields(ans)[0]
+			if ans == "notstun" {
+				tg = "~stun/notstun"
+			}
+			e.Op("stun "+vlib.Hex(raw), ans, tg)
+		}
 		if i%4 == 0 && len(raw) <= 120 {
 			seed := udpip.VerifScmpLinkSeed(dv.v.Link(link))
 			id, ok := udpip.VerifScmpComputeProcID(raw, nproc, seed)
@@ -458,6 +499,9 @@ func (en *engine) finish() {
 	e.Extra["generator_mismatch_samples"] = en.mismatchLog
 	e.Extra["slow_path_requests"] = en.slowSeen
 	e.Extra["slow_path_emitted"] = en.scmpEmitted
+	e.Extra["errors_serialised_in_headroom"] = en.placeFront
+	e.Extra["errors_packed_at_buffer_end"] = en.placeEnd
+	e.Extra["errors_of_exactly_1232_bytes"] = en.atLimit
 	e.Extra["slow_path_inputs_with_consistent_pointers"] = en.consistPre
 	e.Finish()
 }
